@@ -394,7 +394,7 @@ func parseRule(node *yaml.Node, offsetLine, offsetColumn int, contentLines []str
 		{key: labelsKey, part: labelsNode},
 		{key: annotationsKey, part: annotationsNode},
 	} {
-		if entry.part != nil && !isTag(entry.part.ShortTag(), mapTag) {
+		if entry.part != nil && (!isTag(entry.part.ShortTag(), mapTag) || !isCollection(entry.part, yaml.MappingNode)) {
 			return invalidValueError(lines, entry.part.Line+offsetLine, entry.key, describeTag(mapTag), describeTag(entry.part.ShortTag()))
 		}
 	}
